@@ -31,6 +31,10 @@ var uMembers = map[string]map[string]any{
 	"Dog":    {"type": "object", "required": []string{"petType"}, "properties": map[string]any{"petType": map[string]any{"type": "string"}, "bark": map[string]any{"type": "boolean"}, "name": map[string]any{"type": "string"}}},
 	"Circle": {"type": "object", "properties": map[string]any{"r": map[string]any{"type": "integer"}}},
 	"Rect":   {"type": "object", "properties": map[string]any{"w": map[string]any{"type": "integer"}, "h": map[string]any{"type": "integer"}}},
+	// schema names that are not spelled like the Go types made of them: an implicitly mapped member is designated by its
+	// SCHEMA name (guard_dog), whatever the type is called (GuardDog)
+	"guard_dog": {"type": "object", "required": []string{"petType"}, "properties": map[string]any{"petType": map[string]any{"type": "string"}, "bark": map[string]any{"type": "boolean"}, "name": map[string]any{"type": "string"}}},
+	"house-cat": {"type": "object", "required": []string{"petType"}, "properties": map[string]any{"petType": map[string]any{"type": "string"}, "lives": map[string]any{"type": "integer"}, "name": map[string]any{"type": "string"}}},
 	"Bird":   {"type": "object", "required": []string{"petType"}, "properties": map[string]any{"petType": map[string]any{"type": "string"}, "wings": map[string]any{"type": "integer"}}},
 }
 
@@ -92,7 +96,16 @@ func (u uDef) effMapping() map[string]string {
 	return out
 }
 
+// goName: the Go type (and the From/As/Merge method suffix) of a member schema
+func goName(m string) string { return codegen.SchemaNameToTypeName(m) }
+
 func genMember(rng *rand.Rand, m string) map[string]any {
+	switch m { // members of the same shape under another name
+	case "guard_dog":
+		m = "Dog"
+	case "house-cat":
+		m = "Cat"
+	}
 	switch m {
 	case "Circle":
 		return map[string]any{"r": rng.Intn(50)}
@@ -164,6 +177,8 @@ func runC09(r *Report, rng *rand.Rand, thorough bool) {
 		{Name: "UAny", Key: "anyOf", Members: []string{"Cat", "Dog"}},
 		{Name: "UExplicit", Key: "oneOf", Members: []string{"Cat", "Dog", "Bird"}, Disc: true, Mapping: map[string]string{"cat": "Cat", "dog": "Dog", "bird": "Bird"}},
 		{Name: "UImplicit", Key: "oneOf", Members: []string{"Cat", "Dog"}, Disc: true},
+		{Name: "UImplicitNames", Key: "oneOf", Members: []string{"guard_dog", "house-cat"}, Disc: true},
+		{Name: "UPartialNames", Key: "anyOf", Members: []string{"guard_dog", "house-cat", "Bird"}, Disc: true, Mapping: map[string]string{"hc": "house-cat"}},
 		{Name: "UManyToOne", Key: "oneOf", Members: []string{"Cat", "Dog"}, Disc: true, Mapping: map[string]string{"cat": "Cat", "kitty": "Cat", "dog": "Dog", "puppy": "Dog"}},
 		{Name: "UPartial", Key: "oneOf", Members: []string{"Cat", "Dog"}, Disc: true, Mapping: map[string]string{"cat": "Cat"}},
 		{Name: "UFixed", Key: "oneOf", Members: []string{"Cat", "Dog"}, Disc: true, Mapping: map[string]string{"cat": "Cat", "dog": "Dog"}, Fixed: true},
@@ -268,7 +283,7 @@ func runC09(r *Report, rng *rand.Rand, thorough bool) {
 		for i, m := range u.Members {
 			for k := 0; k < nVals; k++ {
 				v := genMember(rng, m)
-				ops := []map[string]any{{"method": "From" + m, "arg": v}, {"method": "As" + m}, {"method": "MarshalJSON"}}
+				ops := []map[string]any{{"method": "From" + goName(m), "arg": v}, {"method": "As" + goName(m)}, {"method": "MarshalJSON"}}
 				if u.Disc {
 					ops = append(ops, map[string]any{"method": "Discriminator"}, map[string]any{"method": "ValueByDiscriminator"})
 				}
@@ -277,7 +292,7 @@ func runC09(r *Report, rng *rand.Rand, thorough bool) {
 				j := rng.Intn(len(u.Members))
 				v2 := genMember(rng, u.Members[j])
 				delete(v2, "name")
-				ops2 := []map[string]any{{"method": "From" + m, "arg": v}, {"method": "Merge" + u.Members[j], "arg": v2}, {"method": "MarshalJSON"}}
+				ops2 := []map[string]any{{"method": "From" + goName(m), "arg": v}, {"method": "Merge" + goName(u.Members[j]), "arg": v2}, {"method": "MarshalJSON"}}
 				if u.Disc {
 					ops2 = append(ops2, map[string]any{"method": "ValueByDiscriminator"})
 				}
@@ -382,8 +397,14 @@ func runC09(r *Report, rng *rand.Rand, thorough bool) {
 		if m.u.DiscProp != "" {
 			sfx = "/discriminator_is_own_" + m.u.DiscProp + "_property"
 		}
-		memberOfType := func(t string) string { // "c09_u.Cat" -> "Cat"
-			return t[strings.LastIndex(t, ".")+1:]
+		memberOfType := func(t string) string { // "c09_u.GuardDog" -> the member schema "guard_dog"
+			g := t[strings.LastIndex(t, ".")+1:]
+			for _, mm := range m.u.Members {
+				if goName(mm) == g {
+					return mm
+				}
+			}
+			return g
 		}
 		mappedTo := func(val string) (string, bool) { mm, ok := eff[val]; return mm, ok }
 		switch m.kind {
